@@ -18,14 +18,17 @@ ENGINE = 'C'
 TECHNIQUE = ('stateless bounded model checking: complete enumeration of component tuples, PEP 440 '
              'version pairs and predicate conjunctions against positional '
              'arithmetic and packaging.version ordering')
-LEVEL_TEXT = ('All component tuples up to the stated length over {0, 1, 9, 10, '
-              '99, 100, 500, 998, 999, seed} with non-zero head are converted '
+LEVEL_TEXT = ('All component tuples up to length 4 (5 thorough) over {0, 1, 9, 10, '
+              '99, 100, 500, 998, 999, seed} and of length 5..7 over {0, 1, 17, 999} '
+              'with non-zero head are converted '
               'str->int, tuple->int, int->str and compared with radix-1000 '
               'positional arithmetic (and with each other for order); all '
               'ordered pairs of 48 PEP 440 versions x same_major and all '
               'conjunctions of up to 3 comparisons x candidate versions are '
               'compared with packaging ordering; malformed inputs must raise '
-              'ValueError.')
+              'ValueError - a fixed list asked first, and every one-blank insertion into '
+              'every 1- and 2-comparison predicate asked after the well-formed one was built, '
+              'classified by a reference grammar.')
 LEVEL_NOTE = ('PEP 440 ordering itself is taken from packaging.version (the '
               'statement defines it that way). Components are the alphabet '
               'values, not all of 0..999.')
@@ -37,7 +40,10 @@ VERSIONS = ['0', '0.1', '1', '1.0', '1.0.0', '1.0.1', '1.1', '1.7', '1.7.1', '1.
             '1.0a1.dev2', '1.0.post1', '1.7.post1', '1.0.post1.dev3', '1!0.5', '1!1.0', '2!0.1',
             '0!1.0', '1.0+local', '1.0+abc.5', '1.7.0', '01.7', 'v1.7', '1.7-1', '1.0.0.0',
             '2.0.0.post2', '2.0.0.dev0', '3.0a0', '999.999', '1.0RC1', '1.0-rc1', '1.0.rc.1',
-            '2.0b1', '2.0c1', '1.7.post0', '1.7.1.dev5', '0.0.1', '0.0']
+            '2.0b1', '2.0c1', '1.7.post0', '1.7.1.dev5', '0.0.1', '0.0',
+            # release components beyond 999 (calendar versions, build numbers): PEP 440 has no radix
+            '1.2', '1.1.1000', '1.1.20240101', '1.2.0', '2024.1', '2024.2', '1.1000', '1.999.1',
+            '1000', '1.0.1000000', '1001.0']
 OPS = {'<': operator.lt, '<=': operator.le, '==': operator.eq, '>': operator.gt,
        '>=': operator.ge, '!=': operator.ne}
 PRED_VERSIONS = ['1.0', '1.7', '2.0.0', '1.7.post1', '2.0.0rc2', '1!0.1']
@@ -130,6 +136,64 @@ def _compat_case(vals, acc):
                  {'compat': [req, cur, same]})
 
 
+def ref_parse_predicate(text):
+    """-> list of (op, Version) or None if the predicate is malformed: comma-separated
+    comparisons, each blanks, one of the six operators, blanks, a PEP 440 version
+    without inner blanks, blanks."""
+    out = []
+    for part in text.split(','):
+        part = part.strip(' \t\n\r\f\v')
+        for op in ('<=', '>=', '!=', '==', '<', '>'):
+            if part.startswith(op):
+                break
+        else:
+            return None
+        ver = part[len(op):].strip(' \t\n\r\f\v')
+        if not ver or any(ch.isspace() for ch in ver) or pv(ver) is None:
+            return None
+        out.append((op, pv(ver)))
+    return out
+
+
+def _blank_insertions(text, acc):
+    """After the well-formed predicate `text` has been built (so whatever the library
+    remembers about it is in place), every string obtained from it by inserting one
+    blank is classified by the reference grammar: still well-formed -> same answers;
+    malformed -> ValueError."""
+    from oslo_utils import versionutils as V
+    for i in range(0, len(text) + 1):
+        t2 = text[:i] + ' ' + text[i:]
+        ref = ref_parse_predicate(t2)
+        acc.counters['predicate_evaluations'] += 1
+        try:
+            pred = V.VersionPredicate(t2)
+        except ValueError:
+            pred = 'ValueError'
+        except Exception as e:
+            pred = 'raises ' + type(e).__name__
+        if ref is None:
+            if pred != 'ValueError':
+                acc.fail('malformed-predicate-accepted-after-valid',
+                         {'built_first': text, 'predicate': t2,
+                          'got': pred if isinstance(pred, str) else 'accepted'},
+                         {'after': text, 'badpred': t2})
+                return
+        else:
+            if isinstance(pred, str):
+                acc.fail('predicate-rejected', {'predicate': t2, 'exception': pred}, {'pred': t2})
+                return
+            for cand in CANDIDATES[::3]:
+                want = all(OPS[op](pv(cand), v) for op, v in ref)
+                try:
+                    got = pred.satisfied_by(cand)
+                except Exception as e:
+                    got = ('raises', type(e).__name__)
+                if got is not want:
+                    acc.fail('satisfied_by', {'predicate': t2, 'candidate': cand, 'got': repr(got),
+                                              'want': want}, {'pred': t2, 'cand': cand})
+                    return
+
+
 def _pred_case(vals, acc):
     from oslo_utils import versionutils as V
     items, spacing = vals
@@ -152,6 +216,8 @@ def _pred_case(vals, acc):
             acc.fail('satisfied_by', {'predicate': text, 'candidate': cand, 'got': repr(got),
                                       'want': want}, {'pred': text, 'cand': cand})
             return
+    if not spacing and len(items) <= 2:
+        _blank_insertions(text, acc)
 
 
 def run(ctx):
@@ -161,6 +227,13 @@ def run(ctx):
     tuples = []
     for n in range(1, maxlen + 1):
         for t in itertools.product(alpha, repeat=n):
+            if t[0] != 0:
+                tuples.append(t)
+    # longer versions over a smaller alphabet: 6 and 7 components make integers beyond 2^53
+    for n, al in ((5, [0, 1, 17, 999]), (6, [0, 1, 17, 999]), (7, [0, 17, 999])):
+        if n <= maxlen:
+            continue
+        for t in itertools.product(al if ctx.thorough or n < 7 else al, repeat=n):
             if t[0] != 0:
                 tuples.append(t)
     E.run(rep, 'tuples', [tuples], _tuple_case)
@@ -227,10 +300,32 @@ def replay(payload):
     elif 'compat' in payload:
         _compat_case(tuple(payload['compat']), acc)
     elif 'pred' in payload:
-        import re
-        items = [re.match(r'\s*(<=|>=|<|>|!=|==)\s*(\S+)\s*$', x).groups()
-                 for x in payload['pred'].split(',')]
-        _pred_case((tuple(items), False), acc)
+        ref = ref_parse_predicate(payload['pred'])
+        try:
+            pred = V.VersionPredicate(payload['pred'])
+        except Exception as e:
+            return {'violates': True, 'rejected': type(e).__name__}
+        for cand in ([payload['cand']] if 'cand' in payload else CANDIDATES):
+            want = all(OPS[op](pv(cand), v) for op, v in ref)
+            try:
+                got = pred.satisfied_by(cand)
+            except Exception as e:
+                got = ('raises', type(e).__name__)
+            if got is not want:
+                return {'violates': True, 'candidate': cand, 'got': repr(got), 'want': want}
+        return {'violates': False}
+    elif 'after' in payload:
+        try:
+            V.VersionPredicate(payload['after'])
+        except Exception:
+            pass
+        try:
+            V.VersionPredicate(payload['badpred'])
+            return {'violates': True}
+        except ValueError:
+            return {'violates': False}
+        except Exception:
+            return {'violates': True}
     elif 'badpred' in payload:
         try:
             V.VersionPredicate(payload['badpred'])
